@@ -24,6 +24,7 @@ mod execchild;
 mod c16;
 mod c17;
 mod c19;
+mod c20;
 mod cfggen;
 mod unicode_c;
 
@@ -48,6 +49,7 @@ fn property(id: &str) -> Option<Property> {
         "C16" => c16::property(),
         "C17" => c17::property(),
         "C19" => c19::property(),
+        "C20" => c20::property(),
         _ => return None,
     })
 }
